@@ -255,6 +255,32 @@ def run(ctx):
                                                          "spurious": sorted(set(got_sel) - set(want_sel))[:12]},
                                       {"what": "cell-dofs", "form": form, "element": ename.split("(")[0]})
                 ctx.count("cell-dofs-readout")
+                # the per-cell table of a basis restricted to a cell list (any order, repetitions, full length) is
+                # the whole table gathered by that list
+                lists = [list(sel)]
+                perm = list(range(m.nelements))
+                ctx.rng.shuffle(perm)
+                lists.append(perm)
+                if m.nelements >= 3:
+                    lists.append([0] + [c for c in perm if c not in (0, m.nelements - 1)] + [m.nelements - 1])
+                    rep = list(range(m.nelements))
+                    rep[ctx.rng.randrange(1, m.nelements - 1)] = rep[ctx.rng.randrange(1, m.nelements - 1)]
+                    lists.append(rep)                      # full length, starts with 0, ends with nt-1, one repeated
+                    k0 = ctx.rng.randrange(m.nelements - 1)
+                    lists.append([k0, k0, k0 + 1][::ctx.rng.choice([1, -1])])
+                for lst in lists:
+                    if ctx.rng.random() < 0.5:
+                        lst = list(lst)
+                        ctx.rng.shuffle(lst)
+                    arr = np.array(lst, dtype=ctx.rng.choice([np.int32, np.int64]))
+                    br = Basis(m, e, intorder=2, elements=arr)
+                    ctx.count("restricted-basis-table")
+                    if br.element_dofs.shape != (ed.shape[0], len(lst)) or not np.array_equal(br.element_dofs, ed[:, lst]):
+                        ctx.violation("the per-cell table of a basis restricted to a cell list is not the whole table "
+                                      "gathered by that list", {"mesh": meshes.mesh_descr(m), "element": ename,
+                                                                "cells": [int(c) for c in lst]},
+                                      {"what": "restricted-table", "element": ename.split("(")[0]})
+                        break
                 if isinstance(e, ElementVector):
                     ncomp = int(e.dim)
                     parts = b.split_indices()
